@@ -301,11 +301,17 @@ Proof.
   - intros H; inversion H; subst; cbn; auto.
 Qed.
 
+(** coherence of the two transparent derivation oracles: when the external IVK derives below
+    the private key, it derives below the serialised account public key as well (BIP 32 public
+    derivation ignores the metadata the serialisation drops) *)
+Definition sk_coherent : Prop :=
+  forall sk, t_sk_ivk O sk <> None -> t_pk_ivk O (t_sk_pk O sk) <> None.
+
 Lemma usk_from_checked_parts_derivable t s o k :
-  usk_from_checked_parts O t s o = Ok k -> k = mkUsk t s o /\ ufvk_derivable (usk_to_ufvk O k).
+  sk_coherent -> usk_from_checked_parts O t s o = Ok k -> k = mkUsk t s o /\ ufvk_derivable (usk_to_ufvk O k).
 Proof.
-  unfold usk_from_checked_parts, ufvk_derivable. destruct (t_pk_ivk O (t_sk_pk O t)) eqn:E; intros H; inversion H.
-  subst. cbn. split; [reflexivity | congruence].
+  intros C. unfold usk_from_checked_parts, ufvk_derivable. destruct (t_sk_ivk O t) eqn:E; intros H; inversion H.
+  subst. cbn. split; [reflexivity|]. apply C. congruence.
 Qed.
 
 Lemma derivable_to_uivk f : ufvk_derivable f -> exists i, ufvk_to_uivk O f = Ok i /\ spec_ivk_of_fvk O f = Some i.
